@@ -259,6 +259,26 @@ RailClauses(S, A, R, PL, T, RR) ==
 
 -----------------------------------------------------------------------------
 (* Clauses of one component row                                             *)
+\* the law of a component with a tabulated parameter, exact class (used on probes only)
+ExactTab(S, n, r) ==
+  LET k   == Kind(S, n)
+      P   == Par(S, n)
+      av  == DAbs(r.vin)
+      IsT(key) == key \in DOMAIN P /\ P[key].k \in {"t1", "t2"}
+  IN
+  /\ (IsT("ig") /\ (k \in {"LINREG", "PSWITCH", "PMUX"} \/ (k = "RECTIFIER" /\ ~IsDiode(S, n) /\ ~DIsZero(r.iout)))) =>
+        \E f \in ParamVals(P["ig"], r.iout, r.vin) :
+           EqX(r.iin \otimes f[2], (r.iout \otimes f[2]) \oplus f[1], (r.iin \oplus r.iout) \otimes f[2], DZero)
+  /\ (IsT("eff") /\ k = "CONVERTER" /\ ~DIsZero(r.iout)) =>
+        \E f \in ParamVals(P["eff"], r.iout, r.vin) :
+           EqX((r.iin \otimes av) \otimes f[1], (PA(S, n, "vo") \otimes r.iout) \otimes f[2], (PA(S, n, "vo") \otimes r.iout) \otimes f[2], DZero)
+  /\ (IsT("vdrop") /\ Cls(S, n) = "VLoss") =>
+        \E f \in ParamVals(P["vdrop"], r.iout, r.vin) :
+           EqX(DAbs(r.vout) \otimes f[2], (av \otimes f[2]) \ominus f[1], av \otimes f[2], DZero)
+  /\ (IsT("vdrop") /\ k = "RECTIFIER" /\ IsDiode(S, n)) =>
+        \E f \in ParamVals(P["vdrop"], r.iout, r.vin) :
+           EqX(DAbs(r.vout) \otimes f[2], (av \otimes f[2]) \ominus (Two \otimes f[1]), av \otimes f[2], DZero)
+
 RowClauses4(S, A, R, n, ph, r, sup, sel, kids, tol, ta, T) ==
   LET k      == Kind(S, n)
       src    == k = "SOURCE"
@@ -326,6 +346,9 @@ RowClauses4(S, A, R, n, ph, r, sup, sel, kids, tol, ta, T) ==
      \* ---- C10 : a component with a tabulated parameter follows its law with an admissible table value
      Cl("C10.Value.Vout", HasTable(S, n), VoutLaw(S, n, ph, sel, r.vin, r.iout, r.vout, tol)),
      Cl("C10.Value.Iin",  HasTable(S, n), IinLaw(S, n, ph, sel, r.vin, r.iout, r.iin, tol)),
+     \* on a probe (Source without resistance - X - constant-current load, or X as a leaf) input voltage and output current
+     \* of X do not move during the iteration: its row follows the tabulated parameter in the exact class
+     Cl("C10.Exact", A.probe /\ HasTable(S, n), ExactTab(S, n, r)),
      \* ---- C11 : consequences of the constructors' acceptance rule, on any solved system
      Cl("C11.LossNonNeg", TRUE, DLeq(DNeg(TolS(r.pwr, tol)), r.loss)),
      Cl("C11.EffLe100", DLt(DZero, r.pwr), DLeq(r.eff, Hund \oplus (Hund \otimes (KS \otimes (tol \oplus Atol))))),
@@ -528,7 +551,7 @@ AllClauseNames ==
    "C07.Total.Loss", "C07.Total.Eff", "C07.Total.Iout", "C07.Energy.Total", "C07.Subsystem.VIP",
    "C07.Subsystem.Loss", "C07.Energy.Subsystem", "C07.Average.Row", "C07.Average.Power",
    "C07.Average.Loss", "C07.Average.Eff", "C07.Average.Iout", "C07.Energy.Average", "C07.Energy.Sum",
-   "C10.Value.Vout", "C10.Value.Iin", "C11.LossNonNeg", "C11.EffLe100", "C11.PassiveNoGain",
+   "C10.Value.Vout", "C10.Value.Iin", "C10.Exact", "C11.LossNonNeg", "C11.EffLe100", "C11.PassiveNoGain",
    "driver.DesignedOK", "C03.FindsModest", "C03.Residual.Vout", "C03.Residual.Iin",
    "C06.PhaseValue", "C06.SleepValue", "C06.ActiveList", "C06.NoConfig", "C06.SinglePhaseEqualsSlice",
    "C06.UnknownPhase", "C05.InputOrderAfterEdit", "C01.Build", "C02.Build", "C04.Build", "C05.Build", "C06.Build", "C07.Build", "C08.Build", "C09.Build", "C08.RailsAsAssigned", "C05.InputsAsDeclared", "C07.SourcesAsBuilt", "C09.LimitsAsConfigured", "C06.ConfAsConfigured", "C08.NoException", "C08.NoRails", "C08.None", "C08.RailSet", "C08.Voltage", "C08.Sums", "C08.Warnings"}
